@@ -100,7 +100,8 @@ M = [
   'ignore symbol not stripped from outputs', 'a line whose arg-max hits the ignore class'),
  ('own-c20-alive-mask-reset', 'C20', 'pero_ocr/ocr_engine/transformer_ocr_engine.py',
   "            alive_mask *= surviving_lines", "            alive_mask = surviving_lines.long()",
-  'a finished line comes back to life when it later emits a non-boundary symbol', 'batch where one line finishes early while another continues'),
+  'a finished line comes back to life when it later emits a non-boundary symbol (equivalent mutant: only costs extra steps inside the cap)',
+  'n/a - control: scores up to each line\'s end, transcriptions and termination are unchanged, must NOT be flagged'),
 ]
 
 
